@@ -480,8 +480,9 @@ func (c *converter) AppCall(calls []transpiler.AppCall, valueUsed bool) ([]strin
 		}
 		name := call.Name()
 
-		// A program path which contains whitespaces needs to be quoted as well.
-		if strings.ContainsAny(name, " \t") && !strings.Contains(name, `"`) {
+		// A program path which contains whitespaces or shell metacharacters needs to be quoted as well
+		// (unquoted, "./tool;x" runs ./tool and then x, "./tool>x" redirects into the file x).
+		if strings.ContainsAny(name, " \t\n;&|<>()[]{}*?#'!=") && !strings.Contains(name, `"`) {
 			name = fmt.Sprintf("\"%s\"", name)
 		}
 		space := ""
